@@ -937,6 +937,96 @@ example : (xOps rndCeil).lt (StructC08.metric_supremum (xOps rndCeil) 0 1 1
 
 end Doubles
 
+/-! ## Round 4 — `RecurrencePlot.diagline_dist()` as a whole (Python layer included) -/
+section PyLayer
+
+theorem modify_zipWith_add (h z : List Nat) (i : Nat) :
+    (List.zipWith (· + ·) h z).modify i (· + 1) = List.zipWith (· + ·) h (z.modify i (· + 1)) := by
+  induction h generalizing z i with
+  | nil => simp
+  | cons a t ih =>
+    cases z with
+    | nil => simp
+    | cons b u =>
+      cases i with
+      | zero => simp [List.modify_cons]; omega
+      | succ i => simp [ih]
+
+theorem bump_addHist (h z : List Nat) (k : Nat) : bump (addHist h z) k = addHist h (bump z k) :=
+  modify_zipWith_add h z (k - 1)
+
+theorem foldl_bump_addHist (ys : List Nat) (h z : List Nat) :
+    ys.foldl bump (addHist h z) = addHist h (ys.foldl bump z) := by
+  induction ys generalizing z with
+  | nil => rfl
+  | cons y t ih => simp only [List.foldl_cons]; rw [bump_addHist, ih]
+
+theorem addHist_zeros (h : List Nat) : addHist h (List.replicate h.length 0) = h := by
+  induction h with
+  | nil => rfl
+  | cons a t ih => simp [addHist, List.replicate_succ] at ih ⊢; exact ih
+
+theorem bump_length (h : List Nat) (k : Nat) : (bump h k).length = h.length := by simp [bump]
+
+theorem foldl_bump_length (ys : List Nat) (h : List Nat) : (ys.foldl bump h).length = h.length := by
+  induction ys generalizing h with
+  | nil => rfl
+  | cons y t ih => simp only [List.foldl_cons]; rw [ih, bump_length]
+
+theorem histOfRuns_append (A B : List (List Bool)) (n : Nat) :
+    histOfRuns (A ++ B) n = addHist (histOfRuns A n) (histOfRuns B n) := by
+  unfold histOfRuns
+  rw [List.flatMap_append, List.foldl_append]
+  have hl : ((A.flatMap runs).foldl bump (List.replicate n 0)).length = n := by
+    rw [foldl_bump_length]; simp
+  generalize (A.flatMap runs).foldl bump (List.replicate n 0) = h at hl ⊢
+  have := foldl_bump_addHist (B.flatMap runs) h (List.replicate n 0)
+  rw [← hl] at this ⊢
+  rw [addHist_zeros] at this
+  exact this
+
+theorem symmetricB_spec (R : Mat) (n : Nat) (h : symmetricB R n = true) (i j : Nat) (hi : i < n)
+    (hj : j < n) : R.at j i = R.at i j := by
+  simp only [symmetricB, List.all_eq_true, List.mem_range, beq_iff_eq] at h
+  exact (h i hi j hj).symm
+
+theorem tr_at (R : Mat) (n i j : Nat) (hi : i < n) (hj : j < n) : (R.tr n).at i j = R.at j i := by
+  simp [Mat.tr, Mat.at, List.getD_eq_getElem?_getD, hi, hj]
+
+theorem map_two_mul (d : List Nat) : d.map (2 * ·) = addHist d d := by
+  induction d with
+  | nil => rfl
+  | cons a t ih => simp [addHist] at ih ⊢; exact ⟨by omega, ih⟩
+
+/-- `RecurrencePlot.diagline_dist()` in matrix mode = run-length count of ALL diagonals off the main
+one, for every matrix, symmetric or not -/
+theorem diaglineDist_eq_runs (R : Mat) (n : Nat) :
+    diaglineDist R n = histOfRuns (diagsOf R n ++ diagsOf (R.tr n) n) n := by
+  rw [histOfRuns_append, ← diag_eq_runs, ← diag_eq_runs]
+  unfold diaglineDist
+  simp only []
+  split
+  · rename_i hs
+    rw [map_two_mul]
+    congr 1
+    exact ((sequential_eq_matrix R (R.tr n) n (fun I j hI hj => by
+      rw [tr_at R n I j hI hj]; exact symmetricB_spec R n hs I j hI hj)).2).symm
+  · rfl
+
+
+/-- on a symmetric matrix this is twice the one-triangle count (what the method returned before the
+repair, for every matrix) -/
+theorem diaglineDist_symmetric (R : Mat) (n : Nat) (h : symmetricB R n = true) :
+    diaglineDist R n = (histOfRuns (diagsOf R n) n).map (2 * ·) := by
+  simp only [diaglineDist, h, if_true, diag_eq_runs]
+
+example : symmetricB [[true, true, false], [false, true, true], [false, false, true]] 3 = false ∧
+    diaglineDist [[true, true, false], [false, true, true], [false, false, true]] 3 = [0, 1, 0] ∧
+    (diagline [[true, true, false], [false, true, true], [false, false, true]] 3).map (2 * ·)
+      = [0, 0, 0] := by decide
+
+end PyLayer
+
 /-! ## Round 4 — the line entropies over the reals (`Real.log`)
 
 `diag_entropy(l_min)`, `vert_entropy(v_min)`, `white_vert_entropy(w_min)` are
